@@ -1571,6 +1571,96 @@ fn value_json(req: &J) -> J {
     json!({"checks": checks})
 }
 
+/// everything the public API lets one observe of a schema: type / action sets, per-action principals / resources, request environments, validation of probe policies, entity validation
+fn schema_summary(schema: &cedar_policy::Schema, probes: &[J], entities: &[J]) -> J {
+    use cedar_policy::{ValidationMode, Validator};
+    use std::str::FromStr;
+    let sorted = |mut v: Vec<String>| { v.sort(); v.dedup(); v };
+    let mut per_action = serde_json::Map::new();
+    for a in schema.actions() {
+        let ps = sorted(schema.principals_for_action(a).map(|i| i.map(|t| t.to_string()).collect()).unwrap_or_default());
+        let rs = sorted(schema.resources_for_action(a).map(|i| i.map(|t| t.to_string()).collect()).unwrap_or_default());
+        per_action.insert(a.to_string(), json!({"principals": ps, "resources": rs}));
+    }
+    let v = Validator::new(schema.clone());
+    let mut val = vec![];
+    for p in probes {
+        let text = p.as_str().unwrap_or("");
+        let r = match PolicySet::from_str(text) {
+            Err(e) => format!("parse error: {e}"),
+            Ok(ps) => { let res = v.validate(&ps, ValidationMode::Strict); let mut es: Vec<String> = res.validation_errors().map(|e| e.to_string()).collect(); es.sort(); if es.is_empty() { "valid".to_string() } else { es.join(" | ") } }
+        };
+        val.push(json!([text, r]));
+    }
+    let ents: Vec<J> = entities.iter().map(|doc| match Entities::from_json_value(doc.clone(), Some(schema)) { Ok(_) => json!("accepted"), Err(e) => json!(format!("refused: {}", e.to_string().chars().take(80).collect::<String>())) }).collect();
+    json!({"entity_types": sorted(schema.entity_types().map(|t| t.to_string()).collect()), "actions": sorted(schema.actions().map(|t| t.to_string()).collect()), "action_groups": sorted(schema.action_groups().map(|t| t.to_string()).collect()),
+           "principals": sorted(schema.principals().map(|t| t.to_string()).collect()), "resources": sorted(schema.resources().map(|t| t.to_string()).collect()), "per_action": per_action,
+           "request_envs": sorted(schema.request_envs().map(|e| format!("{:?}", e)).collect()), "validation": val, "entities": ents})
+}
+
+/// Cedar-syntax schema vs hand-written JSON equivalent, and both printers round-tripped.  -> {checks: [{what, ok, detail}]}
+fn schema_syntax(req: &J) -> J {
+    use cedar_policy::{Schema, SchemaFragment};
+    let mut checks: Vec<J> = vec![];
+    let mut add = |what: &str, ok: bool, detail: String| checks.push(json!({"what": what, "ok": ok, "detail": detail}));
+    let probes = req["probes"].as_array().cloned().unwrap_or_default();
+    let ents = req["entities"].as_array().cloned().unwrap_or_default();
+    let cedar = req["cedar"].as_str().unwrap_or("");
+    let diff = |a: &J, b: &J| -> String {
+        let mut out = vec![];
+        if let (Some(x), Some(y)) = (a.as_object(), b.as_object()) {
+            for (k, v) in x { if y.get(k) != Some(v) {
+                if let (Some(va), Some(vb)) = (v.as_array(), y.get(k).and_then(|z| z.as_array())) { for (i, e) in va.iter().enumerate() { if vb.get(i) != Some(e) { out.push(format!("{k}[{i}]: {e} vs {}", vb.get(i).cloned().unwrap_or(J::Null))); break; } } }
+                else { out.push(format!("{k}: {v} vs {}", y.get(k).cloned().unwrap_or(J::Null))); }
+            } }
+        }
+        out.join("; ").chars().take(500).collect()
+    };
+    let s_c = match Schema::from_cedarschema_str(cedar) { Ok(s) => s.0, Err(e) => { add("the Cedar-syntax schema parses", false, e.to_string()); return json!({"checks": checks}) } };
+    let s_j = match Schema::from_json_value(req["json"].clone()) { Ok(s) => s, Err(e) => { add("the JSON-syntax schema parses", false, e.to_string()); return json!({"checks": checks}) } };
+    let (sum_c, sum_j) = (schema_summary(&s_c, &probes, &ents), schema_summary(&s_j, &probes, &ents));
+    add("the Cedar-syntax schema and its JSON equivalent are observably the same schema (types, actions, per-action principals / resources, request environments, probe policies, entity documents)", sum_c == sum_j, diff(&sum_c, &sum_j));
+    // the probes must discriminate: some valid, some not
+    let nvalid = sum_c["validation"].as_array().map(|v| v.iter().filter(|x| x[1] == "valid").count()).unwrap_or(0);
+    add("the probe policies discriminate (some validate, some do not)", nvalid > 3 && nvalid + 3 < probes.len(), format!("{nvalid} of {} valid", probes.len()));
+    // Cedar -> JSON printer
+    match SchemaFragment::from_cedarschema_str(cedar) {
+        Err(e) => add("the Cedar-syntax schema parses as a fragment", false, e.to_string()),
+        Ok((f, _)) => {
+            match f.to_cedarschema() {
+                Err(e) => add("the fragment read from Cedar syntax prints as Cedar syntax", false, e.to_string()),
+                Ok(text) => match Schema::from_cedarschema_str(&text) {
+                    Err(e) => add("the Cedar text printed from the fragment parses", false, format!("{e}: {text}")),
+                    Ok((s, _)) => { let sm = schema_summary(&s, &probes, &ents); add("Cedar syntax -> fragment -> printed Cedar syntax denotes the same schema", sm == sum_c, diff(&sm, &sum_c)) }
+                },
+            }
+            match f.to_json_value() {
+                Err(e) => add("the fragment read from Cedar syntax prints as JSON", false, e.to_string()),
+                Ok(j) => match Schema::from_json_value(j.clone()) {
+                    Err(e) => add("the JSON printed from the Cedar-syntax fragment parses", false, format!("{e}: {j}")),
+                    Ok(s) => { let sm = schema_summary(&s, &probes, &ents); add("Cedar syntax -> fragment -> printed JSON denotes the same schema", sm == sum_c, diff(&sm, &sum_c)) }
+                },
+            }
+        }
+    }
+    // JSON -> Cedar printer
+    match SchemaFragment::from_json_value(req["json"].clone()) {
+        Err(e) => add("the JSON-syntax schema parses as a fragment", false, e.to_string()),
+        Ok(f) => match f.to_cedarschema() {
+            Err(e) => add("the fragment read from JSON prints as Cedar syntax", false, e.to_string()),
+            Ok(text) => match Schema::from_cedarschema_str(&text) {
+                Err(e) => add("the Cedar text printed from the JSON fragment parses", false, format!("{e}: {text}")),
+                Ok((s, _)) => { let sm = schema_summary(&s, &probes, &ents); add("JSON syntax -> fragment -> printed Cedar syntax denotes the same schema", sm == sum_j, diff(&sm, &sum_j)) }
+            },
+        },
+    }
+    for r in req["refused"].as_array().cloned().unwrap_or_default() {
+        let t = r.as_str().unwrap_or("");
+        add(&format!("`{t}` is refused"), Schema::from_cedarschema_str(t).is_err(), String::new());
+    }
+    json!({"checks": checks})
+}
+
 fn handle(req: &J) -> J {
     match req["op"].as_str().unwrap_or("") {
         "eval" => eval(req),
@@ -1599,6 +1689,7 @@ fn handle(req: &J) -> J {
         "tpe_store" => tpe_store(req),
         "ext_parse" => ext_parse(req),
         "value_json" => value_json(req),
+        "schema_syntax" => schema_syntax(req),
         "manifest_slice" => manifest_slice(req),
         "est_print" => est_print(req),
         "ffi_convert" => ffi_convert(req),
